@@ -65,14 +65,36 @@ Definition single (c : ascii) : option tok :=
   else if Ascii.eqb c "," then Some TComma else None.
 
 (* the tokenizer: a one-pass state machine; None = a character or number form outside the modelled language
-   (exponent notation 1e-3, `.5`, `2x`, `[`, `<` ... ) *)
-Inductive lstate := S0 | SId (acc : str) | SNum (ip : str) | SFrac (ip fp : str) | SStar.
+   (`2x`, `[`, `<` ... ); exponent literals 1e-3 and `.5` are read as their decimal digits *)
+Inductive lstate :=
+| S0 | SId (acc : str) | SNum (ip : str) | SFrac (ip fp : str) | SStar
+| SDot                                            (* a leading `.` : digits must follow (.5) *)
+| SExp0 (ip fp : str)                             (* after e / E : sign or digit must follow *)
+| SExpS (ip fp : str) (neg : bool)                (* after the sign : digit must follow *)
+| SExp (ip fp : str) (neg : bool) (ds : str).     (* exponent digits *)
+
+Definition is_e (c : ascii) : bool := Ascii.eqb c "e" || Ascii.eqb c "E".
+
+(* m.f e+-n as plain decimal digits: the token of 2.5e-1 is TNum "0" "25" (a literal is its decimal value) *)
+Fixpoint strip0 (ip : str) : str :=
+  match ip with c :: (_ :: _) as r => if Ascii.eqb c "0" then strip0 r else ip | _ => ip end.
+Definition exp_num (ip fp : str) (neg : bool) (ds : str) : tok :=
+  let n := Z.to_nat ((fix dv (acc : Z) (l : str) : Z :=
+                        match l with [] => acc | c :: r => dv (10 * acc + Z.of_nat (nat_of_ascii c - 48))%Z r end) 0%Z ds) in
+  if neg then
+    let z := repeat "0" n ++ ip in
+    let k := (List.length z - n)%nat in
+    TNum (strip0 (firstn k z)) (skipn k z ++ fp)
+  else
+    let f := fp ++ repeat "0" n in
+    TNum (strip0 (ip ++ firstn n f)) (skipn n fp).
 
 Definition start (c : ascii) : option (list tok * lstate) :=
   if is_space c then Some ([], S0)
   else if is_alpha c then Some ([], SId [c])
   else if is_digit c then Some ([], SNum [c])
   else if Ascii.eqb c "*" then Some ([], SStar)
+  else if Ascii.eqb c "." then Some ([], SDot)
   else match single c with Some t => Some ([t], S0) | None => None end.
 
 Definition emit (t : tok) (r : option (list tok * lstate)) : option (list tok * lstate) :=
@@ -84,22 +106,35 @@ Definition step (st : lstate) (c : ascii) : option (list tok * lstate) :=
   | SId acc => if is_idchar c then Some ([], SId (acc ++ [c])) else emit (TId acc) (start c)
   | SNum ip => if is_digit c then Some ([], SNum (ip ++ [c]))
                else if Ascii.eqb c "." then Some ([], SFrac ip [])
+               else if is_e c then Some ([], SExp0 ip [])
                else if is_alpha c then None
                else emit (TNum ip []) (start c)
   | SFrac ip fp => if is_digit c then Some ([], SFrac ip (fp ++ [c]))
+                   else if is_e c then Some ([], SExp0 ip fp)
                    else if is_alpha c || Ascii.eqb c "." then None
                    else emit (TNum ip fp) (start c)
   | SStar => if Ascii.eqb c "*" then Some ([TPow], S0) else emit TMul (start c)
+  | SDot => if is_digit c then Some ([], SFrac ["0"] [c]) else None
+  | SExp0 ip fp => if is_digit c then Some ([], SExp ip fp false [c])
+                   else if Ascii.eqb c "+" then Some ([], SExpS ip fp false)
+                   else if Ascii.eqb c "-" then Some ([], SExpS ip fp true)
+                   else None
+  | SExpS ip fp neg => if is_digit c then Some ([], SExp ip fp neg [c]) else None
+  | SExp ip fp neg ds => if is_digit c then Some ([], SExp ip fp neg (ds ++ [c]))
+                         else if is_alpha c || Ascii.eqb c "." then None
+                         else emit (exp_num ip fp neg ds) (start c)
   end.
 
-Definition flush (st : lstate) : list tok :=
+Definition flush (st : lstate) : option (list tok) :=
   match st with
-  | S0 => [] | SId acc => [TId acc] | SNum ip => [TNum ip []] | SFrac ip fp => [TNum ip fp] | SStar => [TMul]
+  | S0 => Some [] | SId acc => Some [TId acc] | SNum ip => Some [TNum ip []] | SFrac ip fp => Some [TNum ip fp]
+  | SStar => Some [TMul] | SExp ip fp neg ds => Some [exp_num ip fp neg ds]
+  | SDot | SExp0 _ _ | SExpS _ _ _ => None
   end.
 
 Fixpoint lex (st : lstate) (s : str) : option (list tok) :=
   match s with
-  | [] => Some (flush st)
+  | [] => flush st
   | c :: s' => match step st c with
                | None => None
                | Some (o, st') => match lex st' s' with None => None | Some ts => Some (o ++ ts) end
@@ -147,6 +182,7 @@ with pU (n : nat) (ts : list tok) {struct n} : pres :=
   match n with O => None | S n =>
     match ts with
     | TMinus :: r => match pU n r with Some (a, r') => Some (Neg a, r') | None => None end
+    | TPlus :: r => pU n r                          (* unary plus: +x is x *)
     | _ => pP n ts
     end
   end
@@ -214,29 +250,64 @@ Definition opow (a b : option Qc) : option Qc :=
    done by string surgery in the generated code) *)
 Definition nat_of_digits (ds : str) : nat := Z.to_nat (digits_val 0 ds).
 
-Fixpoint eval (env : str -> option Qc) (venv : str -> option (list Qc)) (e : expr) : option Qc :=
+(* evaluation context: scalars, vectors, matrices, and the component that is observed (numpy broadcasting of scalars
+   against 1-d arrays is component-wise, so a vector-valued right-hand side is its components) *)
+Record ectx := { sc : str -> option Qc; vec : str -> option (list Qc); mat : str -> option (list (list Qc)); comp : nat }.
+
+Definition is_f (f : str) (name : string) : bool := str_eqb f (s2l name).
+Definition nth2 (m : list (list Qc)) (i j : nat) : option Qc :=
+  match nth_error m i with Some row => nth_error row j | None => None end.
+
+Definition var_val (cx : ectx) (x : str) : option Qc :=
+  match sc cx x with
+  | Some q => Some q
+  | None => match vec cx x with Some l => nth_error l (comp cx) | None => None end
+  end.
+
+Fixpoint eval (cx : ectx) (e : expr) : option Qc :=
   match e with
   | Num ip fp => Some (num_val ip fp)
-  | Var x => env x
-  | Neg a => oneg (eval env venv a)
-  | Add a b => oadd (eval env venv a) (eval env venv b)
-  | Sub a b => osub (eval env venv a) (eval env venv b)
-  | Mul a b => omul (eval env venv a) (eval env venv b)
-  | Div a b => odiv (eval env venv a) (eval env venv b)
-  | Pow a b => opow (eval env venv a) (eval env venv b)
+  | Var x => var_val cx x
+  | Neg a => oneg (eval cx a)
+  | Add a b => oadd (eval cx a) (eval cx b)
+  | Sub a b => osub (eval cx a) (eval cx b)
+  | Mul a b => omul (eval cx a) (eval cx b)
+  | Div a b => odiv (eval cx a) (eval cx b)
+  | Pow a b => opow (eval cx a) (eval cx b)
+  | Call f [Var v] =>
+      if is_f f "index_axis" then match vec cx v with Some l => nth_error l (comp cx) | None => None end
+      else if is_f f "no_op" || is_f f "identity" then var_val cx v else None
+  | Call f [a] => if is_f f "no_op" || is_f f "identity" then eval cx a else None   (* pass-through marker *)
   | Call f [Var v; Num ip []] =>
-      if str_eqb f (s2l "index") then
-        match venv v with Some l => nth_error l (nat_of_digits ip) | None => None end
+      if is_f f "index" then
+        match vec cx v with
+        | Some l => nth_error l (nat_of_digits ip)                                   (* v[i] *)
+        | None => match mat cx v with Some m => nth2 m (nat_of_digits ip) (comp cx) | None => None end   (* A[i] *)
+        end
       else None
-  | Call f [a] => if str_eqb f (s2l "no_op") || str_eqb f (s2l "identity") then eval env venv a else None   (* pass-through marker *)
+  | Call f [Var v; Num i []; Num j []] =>
+      if is_f f "index_2d" then match mat cx v with Some m => nth2 m (nat_of_digits i) (nat_of_digits j) | None => None end
+      else if is_f f "index_range" then                                              (* v[i:j] *)
+        match vec cx v with
+        | Some l => if (nat_of_digits i + comp cx <? nat_of_digits j)%nat then nth_error l (nat_of_digits i + comp cx) else None
+        | None => None
+        end
+      else if is_f f "index_axis" then                                               (* index_axis(A, i, 1) = A[:, i] *)
+        if (nat_of_digits j =? 1)%nat then match mat cx v with Some m => nth2 m (comp cx) (nat_of_digits i) | None => None end
+        else None
+      else None
   | Call _ _ => None
   end.
 
 Fixpoint lookup {A} (l : list (str * A)) (x : str) : option A :=
   match l with [] => None | (k, v) :: r => if str_eqb k x then Some v else lookup r x end.
 
+Definition mkctx (env : list (str * Qc)) (venv : list (str * list Qc)) (menv : list (str * list (list Qc))) (k : nat) : ectx :=
+  {| sc := lookup env; vec := lookup venv; mat := lookup menv; comp := k |}.
+Definition eval_ctx (cx : ectx) (s : str) : option Qc :=
+  match parse s with Some e => eval cx e | None => None end.
 Definition eval_string (env : list (str * Qc)) (venv : list (str * list Qc)) (s : str) : option Qc :=
-  match parse s with Some e => eval (lookup env) (lookup venv) e | None => None end.
+  eval_ctx (mkctx env venv [] 0) s.
 
 (* sums / products written as lists of terms / factors *)
 Fixpoint sum_of (a : expr) (l : list expr) : expr := match l with [] => a | b :: r => sum_of (Add a b) r end.
